@@ -3,7 +3,7 @@
 quick numbers come from the committed evidence files, thorough numbers from the given log."""
 import json, re, sys
 layers = {"C03": "in-process + daemon", "C09": "in-process + daemon", "C14": "in-process + worker processes", "C15": "in-process + daemon",
-          "C17": "in-process + daemon", "C20": "in-process + daemon"}
+          "C17": "in-process + daemon", "C18": "in-process + CLI processes", "C20": "in-process + daemon"}
 thor = {}
 if len(sys.argv) > 1:
     for l in open(sys.argv[1]):
